@@ -271,24 +271,52 @@ func runC03(r *Run, verifDir string) {
 			r.Bad("C03.T3", key, fn.Pos(), "%s does not write through encodeAppendRightPadded: text and byte strings are right-padded", m)
 			continue
 		}
-		a := ea.Call.Args // enc, tag, typ, length, padLen, padVal, f
-		ty, _ := constIntVal(a[2])
+		// arguments by role (enc, tag, type code, length, pad length, [pad byte], value closure), whatever their number
+		a := ea.Call.Args
+		var tyArg, lenArg, padArg, pvArg, fnArg ssa.Value
+		for i, x := range a {
+			if i < 2 {
+				continue // receiver and tag
+			}
+			switch {
+			case typeName(x.Type()) == "Type" && tyArg == nil:
+				tyArg = x
+			case func() bool { _, isF := x.Type().Underlying().(*types.Signature); return isF }():
+				fnArg = x
+			case func() bool { pc, ok := x.(*ssa.Call); return ok && callID(&pc.Call).is(ttlvPath, "", "padForLen") }():
+				padArg = x
+			case func() bool { _, ok := lenOperand(x); return ok }() && lenArg == nil:
+				lenArg = x
+			case func() bool { b, ok := x.Type().Underlying().(*types.Basic); return ok && (b.Kind() == types.Uint8) }():
+				pvArg = x
+			}
+		}
+		ty := int64(-1)
+		if tyArg != nil {
+			ty, _ = constIntVal(tyArg)
+		}
 		val := fn.Params[2]
 		lenOK := false
-		if y, ok := lenOperand(a[3]); ok && unspill(y) == ssa.Value(val) {
-			lenOK = true
+		if lenArg != nil {
+			if y, ok := lenOperand(lenArg); ok && unspill(y) == ssa.Value(val) {
+				lenOK = true
+			}
 		}
 		padOK := false
-		if pc, ok := a[4].(*ssa.Call); ok && callID(&pc.Call).is(ttlvPath, "", "padForLen") {
+		if pc, ok := padArg.(*ssa.Call); ok {
 			if y, ok := lenOperand(pc.Call.Args[0]); ok && unspill(y) == ssa.Value(val) {
 				if k, ok := constIntVal(pc.Call.Args[1]); ok && k == 8 {
 					padOK = true
 				}
 			}
 		}
-		pv, pvOK := constIntVal(a[5])
+		// the pad byte: an explicit constant argument, or (no such parameter) what the helper's pad call writes, checked below
+		pv, pvOK := int64(0), true
+		if pvArg != nil {
+			pv, pvOK = constIntVal(pvArg)
+		}
 		appOK := false
-		if mc, ok := a[6].(*ssa.MakeClosure); ok {
+		if mc, ok := fnArg.(*ssa.MakeClosure); ok {
 			cl := mc.Fn.(*ssa.Function)
 			allInstrs(cl, func(in ssa.Instruction) {
 				if c, ok := in.(*ssa.Call); ok {
